@@ -651,3 +651,84 @@ func zzH_C03_tie_break_step(t *zzT) {
 //zz:quick extra=3 onlydev=0 syncing=1 budget=300s
 //zz:thorough extra=4 onlydev=0 syncing=1 budget=30m
 func zzH_C04_finalized_height_step_syncing(t *zzT) { zzxAcceptStep(t) }
+
+// C16 "events are indexed consecutively" / C03 "event root matching the execution result" at the block
+// level: the application returns events from three places (before the transactions, per transaction, after
+// the transactions), each numbered from its own logger — here with arbitrary index values. The engine must
+// store the events of the block numbered 0..n-1 in execution order, and accept the block only with the
+// event root of exactly that list: a header carrying the root of the list as numbered by the application
+// (or of the list in another order) is refused.
+//
+//zz:opt loop=400 lockdiscipline=off gor=64 hashdepth=12 require=accepted,rejected budget=300s
+//zz:stub time.Now zzxStubNow
+func zzH_C16_block_events_indexed(t *zzT) {
+	db.ZZUnordered = true
+	n := zzxNewNode(t, 2, 1, 2)
+	tx := zzxTx(4, "token")
+	mkEv := func(name string, idx uint32, h uint32) *blockchain.Event {
+		return blockchain.NewEventFromValues("token", name, []byte{1}, []codec.Hex{[]byte(name)}, h, idx)
+	}
+	b := n.nextValid(1, []*blockchain.Transaction{tx})
+	h := b.Header.Height
+	// what the application hands back: indexes as its per-call loggers produced them (not consecutive)
+	n.abi.eventsBefore = []*blockchain.Event{mkEv("before", 0, h)}
+	n.abi.eventsTx = []*blockchain.Event{mkEv("tx-a", 0, h), mkEv("tx-b", 1, h)}
+	n.abi.events = []*blockchain.Event{mkEv("after", 0, h)}
+	names := []string{"before", "tx-a", "tx-b", "after"}
+	want := make([]*blockchain.Event, len(names))
+	asReported := []*blockchain.Event{mkEv("before", 0, h), mkEv("tx-a", 0, h), mkEv("tx-b", 1, h), mkEv("after", 0, h)}
+	for i, nm := range names {
+		want[i] = mkEv(nm, uint32(i), h)
+	}
+	variant := t.Choice("header.eventRoot", 3)
+	var root []byte
+	var err error
+	switch variant {
+	case 0:
+		root, err = blockchain.CalculateEventRoot(want)
+	case 1:
+		root, err = blockchain.CalculateEventRoot(asReported)
+	default:
+		swapped := []*blockchain.Event{mkEv("tx-a", 0, h), mkEv("before", 1, h), mkEv("tx-b", 2, h), mkEv("after", 3, h)}
+		root, err = blockchain.CalculateEventRoot(swapped)
+	}
+	if err != nil {
+		t.Fail("setup: event root")
+	}
+	b.Header.EventRoot = root
+	gi := n.slotOf(b.Header.Timestamp) % 2
+	b.Header.Sign(zzxChainID, zzxPriv[gi])
+	b.Header.Init()
+	perr := b.Validate()
+	if perr == nil {
+		perr = n.ex.processValidated(context.Background(), b, false, false)
+	}
+	if perr != nil {
+		t.Assert(variant != 0, "a block whose event root is the root of the consecutively numbered events is accepted")
+		t.Assert(bytes.Equal(n.chain.LastBlock().Header.ID, n.genesisTipID(1)), "refused block leaves the tip")
+		t.Reach("rejected")
+		return
+	}
+	t.Assert(variant == 0, "only the root of the events numbered 0..n-1 in execution order is accepted")
+	got, gerr := n.chain.DataAccess().GetEvents(h)
+	t.Assert(gerr == nil && len(got) == len(want), "the block's events are stored")
+	if gerr == nil && len(got) == len(want) {
+		ok := true
+		for i := range got {
+			if got[i].Index != uint32(i) || got[i].Name != names[i] || got[i].Height != h {
+				ok = false
+			}
+		}
+		t.Assert(ok, "stored events are numbered consecutively from 0 in execution order")
+	}
+	t.Reach("accepted")
+}
+
+// genesisTipID: ID of the block at the given height of the node's chain.
+func (n *zzxNode) genesisTipID(height uint32) []byte {
+	bh, err := n.chain.DataAccess().GetBlockHeaderByHeight(height)
+	if err != nil {
+		return nil
+	}
+	return bh.ID
+}
